@@ -40,6 +40,10 @@ def x_obligations(tier):
             for entry in ("string", "get_with"):
                 o.append(Obl(f"C04-apply1[{base},{KEYS[ki]},{entry},len<=2]", M, "apply1", env={"VF_BASE": base, "VF_KI": str(ki), "VF_N": "2", "VF_ENTRY": entry}, timeout=T, family="C04-apply",
                              bound=f"base {base} (forced, non-first type), key {KEYS[ki]}, every value of 1..2 characters"))
+    # a plain (non-uri) string with a query whose value may contain ':'
+    for base, ki in [("h/a", 2), ("h/s/q1/v1", 5), ("h", 7)]:
+        o.append(Obl(f"C04-apply-plain[{base},{KEYS[ki]},len<=2]", M, "apply1", env={"VF_BASE": base, "VF_KI": str(ki), "VF_N": "2", "VF_ENTRY": "plain"}, timeout=T, family="C04-apply",
+                     bound=f"Sid({base!r} + '?' + {KEYS[ki]}=v), every v of 1..2 characters, ':' included"))
     # the query syntax's own variants: '?' as pair separator, leading / trailing '?' or '&'
     syn = [("h/a/x", 4, 6, "?", "", ""), ("h/s/q1/v1", 4, 7, "?", "?", ""), ("h/a/x", 4, None, "&", "?", ""), ("h/*/*", 2, None, "&", "&", "?"), ("h/s/q1/v1", 6, None, "&", "", "&")]
     for base, a, b, sep, lead, trail in syn:
